@@ -73,10 +73,11 @@ VERSION = "0.62.7"
 # ------------------------------------------------------------------ strategies
 
 ALPHA = "abcdxyzABCXYZ 0189_-.,;:/()[]%+#'=µÜé中"
-SAFE = "abcdxyzABCXYZ 0189_-.,;:/()%+"
+SAFE = "abcdxyzABCXYZ 0189_-.,;:/()%+="
 WORDS = ["CellCarrier", "0.49% MC-PBS", "channel", "Reservoir", "LED", "True", "false",
          "None", "3", "2.5", " x ", "a # b", "'q'", "ShapeIn 2.0.6", "nan", "1e3",
-         "deform", "[1, 2]", "b'abc'", "ZMDD-AcC-8ecba5-cd57e2", "y", "N"]
+         "deform", "[1, 2]", "b'abc'", "ZMDD-AcC-8ecba5-cd57e2", "y", "N", "pH=7.4",
+         "thresh:t=-6:cle=1"]
 INTS = st.one_of(st.integers(-6, 6), st.integers(-6, 6),
                  st.sampled_from([0, 1, 255, 65536, 2**31 - 1, 2**31, 2**53, -2**53,
                                   10**6, 96, 250, 2**53 + 2]))
@@ -1126,6 +1127,12 @@ def _run_h5(spec, rec, d):
         with RTDCWriter(path) as hw:
             hw.store_metadata(m1)
             hw.store_feature("deform", deform)
+            if "channel count" in m1.get("fluorescence", {}):
+                # fluorescence features make the writer's auto-completion of the
+                # channel count active: a value that was given must be kept
+                rec.cls("writer:channel-count-given+fl-features")
+                for flf in ("fl1_max", "fl3_max"):
+                    hw.store_feature(flf, np.arange(1, len(deform) + 1))
             extra = spec["extra"]
             if extra:
                 bad = {"fmt_tdms": {"fmt_tdms": {"video frame offset": 1}},
